@@ -12,6 +12,7 @@ import (
 	"verif/mc/engines/e1"
 	"verif/mc/engines/e2"
 	"verif/mc/engines/e4"
+	"verif/mc/engines/e5"
 	"verif/mc/hx"
 )
 
@@ -71,6 +72,16 @@ func main() {
 		}
 	case "e4":
 		ctx := &e4.Ctx{Rep: rep, Sh: sh, Deadline: deadline, WD: hx.NewWatchdog(rep, 30*time.Second)}
+		if *replay != "" {
+			if err := ctx.Replay(*props, *replay); err != nil {
+				fmt.Fprintln(os.Stderr, err)
+				os.Exit(3)
+			}
+		} else {
+			ctx.Run(*props, *tier)
+		}
+	case "e5":
+		ctx := &e5.Ctx{Rep: rep, Sh: sh, Deadline: deadline, WD: hx.NewWatchdog(rep, 30*time.Second)}
 		if *replay != "" {
 			if err := ctx.Replay(*props, *replay); err != nil {
 				fmt.Fprintln(os.Stderr, err)
